@@ -166,7 +166,7 @@ def build(case: dict[str, Any], garbage: float | None, memo: bool) -> tuple[EnOp
     cfg: dict[str, Any] = {
         "variables": {"initial_values": [0.0] * n},
         "realizations": {"weights": case["weights"], "realization_min_success": 0},
-        "objectives": {"weights": [1.0] * k_n},
+        "objectives": {"weights": case.get("obj_weights") or [1.0] * k_n},
         "gradient": {"number_of_perturbations": p_n, "perturbation_magnitudes": 0.1, "boundary_types": 1},
         "samplers": [{"method": "design/fixed"}],
         "realization_filters": case["filters"],
@@ -512,7 +512,9 @@ def hypothesis_shard(item: dict[str, Any]) -> Collector:
             "con_filt": [draw(st.integers(-1, 0)) for _ in range(c_n)] if c_n and draw(st.booleans()) else None,
             "slopes": [draw(num) for _ in range(r_n * (k_n + c_n) * n)], "offsets": [draw(num) for _ in range(r_n * (k_n + c_n))],
             "design": [draw(st.sampled_from([-1.0, 1.0, 0.5, 0.0])) for _ in range(r_n * p_n * n)],
-            "estimator": draw(st.sampled_from([None, None, "mean", "stddev"])) if r_n > 1 else None, "huge": draw(st.integers(0, 3)) == 0,
+            "estimator": draw(st.sampled_from([None, None, "mean", "stddev"])) if r_n > 1 else None,
+            # an objective that is only monitored (objective weight 0) is still evaluated and reported
+            "obj_weights": [1.0] + [draw(st.sampled_from([0.0, 0.0, 2.0])) for _ in range(k_n - 1)] if k_n > 1 and draw(st.booleans()) else None, "huge": draw(st.integers(0, 3)) == 0,
             "history": history, "memo": draw(st.booleans()), "readonly": draw(st.booleans()), "ro_x": draw(st.booleans()),
             "info": draw(st.booleans()), "layout": draw(st.sampled_from([None, None, "fortran", "strided", "float32"])),
             "transforms": tr, "vscale": [draw(st.sampled_from([0.5, 2.0, 4.0])) for _ in range(n)],
@@ -534,7 +536,7 @@ def hypothesis_shard(item: dict[str, Any]) -> Collector:
             "inactive-entries" if stats["inactive"] else "all-active", "memo-repeat" if stats["repeats"] else "no-repeat",
             f"transforms={case['transforms'] or 'none'}", "filters" if case["filters"] else "no-filters",
             "zero-weights" if 0.0 in case["weights"] else "positive-weights", f"estimator={case['estimator'] or 'default'}",
-            "huge-garbage" if case["huge"] else "moderate-garbage", "tiny-weights" if any(0 < w < 1e-6 for w in case["weights"]) else "no-tiny-weights", *(f"op={k}" for k in sorted(kinds)),
+            "huge-garbage" if case["huge"] else "moderate-garbage", "zero-objective-weight" if case["obj_weights"] and 0.0 in case["obj_weights"] else "positive-objective-weights", "tiny-weights" if any(0 < w < 1e-6 for w in case["weights"]) else "no-tiny-weights", *(f"op={k}" for k in sorted(kinds)),
             "aborted" if stats["aborted"] else "completed", "info" if case["info"] else "no-info",
             "persistent-readonly-buffers" if case["readonly"] and not case["memo"] else "fresh-or-memo-arrays",
             "readonly-x" if case["ro_x"] else "plain-x",
